@@ -207,11 +207,12 @@ var c12FieldKinds = func() []reflect.Type {
 		reflect.TypeOf(map[string]int{}), reflect.TypeOf(map[string]interface{}{}), reflect.TypeOf(map[string][]string{}),
 		gen.TIface, reflect.TypeOf(zoo.Plain{}), reflect.TypeOf(struct{}{}), reflect.TypeOf([2]int{}),
 		reflect.TypeOf(zoo.ZeroVal{}), reflect.TypeOf(zoo.ZeroPtr{}), reflect.TypeOf(zoo.ZeroInt(0)),
+		reflect.TypeOf(zoo.ZeroStr("")), reflect.TypeOf(zoo.ZeroBytes(nil)), reflect.TypeOf(zoo.ZeroSet(nil)), reflect.TypeOf(zoo.ZeroArr{}), reflect.TypeOf(zoo.ZeroLevel(0)),
 		reflect.TypeOf(zoo.FoldVal{}), reflect.TypeOf(zoo.FoldPtr{}), reflect.TypeOf(zoo.NamedInts{}), reflect.TypeOf(zoo.NamedMap{}), reflect.TypeOf(zoo.NamedString("")))
 	return ts
 }()
 
-var c12Tags = []string{"", "nm", "-", ",omit", ",omitempty", "nm,omitempty", ",inline", ",squash"}
+var c12Tags = []string{"", "nm", "-", ",omit", ",omitempty", "nm,omitempty", ",inline", ",squash", ",omit,inline,omitempty", "nm,omit,omitempty", ",omit,squash"}
 
 func c12Sweep(c *run.C) {
 	r := c.R
@@ -222,7 +223,7 @@ func c12Sweep(c *run.C) {
 	for i := 0; i < ptr; i++ {
 		ft = reflect.PtrTo(ft)
 	}
-	inline := strings.Contains(tag, "inline") || strings.Contains(tag, "squash")
+	inline := (strings.Contains(tag, "inline") || strings.Contains(tag, "squash")) && !strings.Contains(tag, "omit,")
 	if inline {
 		_, bt := func() (int, reflect.Type) {
 			n, x := 0, ft
@@ -251,7 +252,7 @@ func c12Sweep(c *run.C) {
 		fields[1].Tag = reflect.StructTag(fmt.Sprintf(`struct:"%s"`, tag))
 	}
 	t := reflect.StructOf(fields)
-	vo := gen.GoValueOpts{BadUTF8: true, SpecialF: true}
+	vo := gen.GoValueOpts{BadUTF8: true, SpecialF: true, Exemplars: zoo.Exemplars}
 	if inline {
 		// interface content of an inline field must be an object
 		vo.IfaceTypes = []reflect.Type{reflect.TypeOf(map[string]interface{}{}), reflect.TypeOf(map[string]int{}), reflect.TypeOf(zoo.Plain{}), reflect.TypeOf(&zoo.Plain{})}
@@ -349,8 +350,18 @@ func c12Zoo(c *run.C) {
 	if t == reflect.TypeOf(zoo.InlineIface{}) {
 		ifaceTypes = []reflect.Type{reflect.TypeOf(zoo.Plain{}), reflect.TypeOf(map[string]int{}), reflect.TypeOf(map[string]interface{}{}), reflect.TypeOf(zoo.FoldVal{})}
 	}
-	vg := &gen.ValueGen{R: r, O: gen.GoValueOpts{BadUTF8: true, IfaceTypes: ifaceTypes}}
+	if t == reflect.TypeOf(zoo.InlineOuter{}) || t == reflect.TypeOf(zoo.InlineInner{}) {
+		// nested inline interfaces: objects that hold (and are) further
+		// structs with inline interface fields
+		ifaceTypes = []reflect.Type{reflect.TypeOf(map[string]interface{}{}), reflect.TypeOf(zoo.InlineInner{}), reflect.TypeOf(zoo.InlineOuter{}), reflect.TypeOf(&zoo.InlineInner{}), reflect.TypeOf(zoo.Plain{}), reflect.TypeOf(map[string]int{})}
+	}
+	vg := &gen.ValueGen{R: r, O: gen.GoValueOpts{BadUTF8: true, IfaceTypes: ifaceTypes, Exemplars: zoo.Exemplars,
+		IfaceTypesFor: map[reflect.Type][]reflect.Type{reflect.TypeOf((*zoo.Folderer)(nil)).Elem(): zoo.FoldererValues}}}
 	v := vg.Value(t, 0)
+	if (t == reflect.TypeOf(zoo.InlineOuter{}) || t == reflect.TypeOf(zoo.InlineInner{})) && holdsNilPtrInIface(v, 0) {
+		c.Observe("zoo_skipped_inline_iface_with_nil_pointer", 1)
+		return // nothing documented for an inline interface that holds a typed nil pointer
+	}
 	tags := typeTags(t)
 	c.Begin(goCase{Type: t.String(), Value: valueString(v), How: "zoo", Tags: tags})
 	for _, tg := range tags {
@@ -376,14 +387,60 @@ func init() {
 		Level: "exploration",
 		Rule: "programs: Go types generated over bool, string, all int/uint/float widths, []T, map[string]T, *T (chains up to 3), interface{}, reflect.StructOf structs whose fields draw every tag combination " +
 			"(none, name, '-', omit, omitempty, name+omitempty, inline/squash; unexported fields), plus named / method-carrying / embedded zoo types; values filled from the scalar class mix with nil / empty / non-empty variants at every nillable position; " +
-			"sweep: every tag option x every field kind (14 scalars, slices, maps, interface, structs, array, IsZeroer value/pointer receiver, Folder value/pointer receiver, named types) x pointer depth 0..3 x {zero, pointers to zero, random}; " +
-			"registered: folders registered with Folders() at top level, as value/pointer/element/map/interface/inline positions. Oracle: value recorded from the real Fold == independent executable model of the documented tag rules. " +
+			"sweep: every tag option x every field kind (14 scalars, slices, maps, interface, structs, array, IsZeroer value/pointer receiver incl. string/slice/map/array-kind IsZeroers whose IsZero is true for non-empty values, Folder value/pointer receiver, named types; omit combined with inline/omitempty) x pointer depth 0..3 x {zero, pointers to zero, random}; " +
+			"zoo also holds interface types that include Fold() (nil, typed nil pointers, value/pointer receivers) and structs whose inline interface{} fields nest in one another; registered: folders registered with Folders() at top level, as value/pointer/element/map/interface/inline positions. Oracle: value recorded from the real Fold == independent executable model of the documented tag rules. " +
 			"distinct_nontrivial = distinct (type, value) pairs.",
 		Assumptions: []string{
-			"where the documentation is silent the model follows the observed behaviour: omitempty is evaluated after following pointers and interfaces; embedded fields without tag are named by their lower-cased type name; kind decides before IsZero for strings/slices/maps",
+			"where the documentation is silent the model follows the observed behaviour: omitempty is evaluated after following pointers and interfaces; embedded fields without tag are named by their lower-cased type name",
+			"an inline interface{} field holding a typed nil pointer is not swept: the documentation assigns it nothing (the library returns an error)",
 			"member order of Go maps (and of objects that inline a map) is not compared",
 			"announced lengths and event widths are not compared here (C09 checks announced lengths)",
 		},
 		Suites: c12Suites,
 	})
+}
+
+// holdsNilPtrInIface reports whether an inline interface{} field somewhere in
+// v holds a typed nil pointer.
+func holdsNilPtrInIface(v reflect.Value, depth int) bool {
+	if depth > 12 {
+		return false
+	}
+	switch v.Kind() {
+	case reflect.Ptr, reflect.Interface:
+		if v.IsNil() {
+			return false
+		}
+		return holdsNilPtrInIface(v.Elem(), depth+1)
+	case reflect.Map:
+		for _, k := range v.MapKeys() {
+			if holdsNilPtrInIface(v.MapIndex(k), depth+1) {
+				return true
+			}
+		}
+	case reflect.Slice, reflect.Array:
+		for i := 0; i < v.Len(); i++ {
+			if holdsNilPtrInIface(v.Index(i), depth+1) {
+				return true
+			}
+		}
+	case reflect.Struct:
+		for i := 0; i < v.NumField(); i++ {
+			f := v.Type().Field(i)
+			fv := v.Field(i)
+			if gen.ParseFieldTag(f).Inline && fv.Kind() == reflect.Interface && !fv.IsNil() {
+				e := fv.Elem()
+				for e.Kind() == reflect.Ptr {
+					if e.IsNil() {
+						return true
+					}
+					e = e.Elem()
+				}
+			}
+			if holdsNilPtrInIface(fv, depth+1) {
+				return true
+			}
+		}
+	}
+	return false
 }
